@@ -163,6 +163,20 @@ fn build(r: &RefOnt) -> Result<Ontology, String> {
     }
 }
 
+/// The same facts with every list written in descending order: term ids inside gene / disease records,
+/// parent ids inside parent records, and the records themselves (the layout prescribes no order).
+fn build_descending(r: &RefOnt) -> Result<Ontology, String> {
+    let mut f = r.to_facts();
+    f.terms.reverse();
+    f.edges.reverse();
+    f.anns.reverse();
+    match drive::from_bytes(&encode::encode(&f, &EncOpts::v(3))) {
+        Ok(Ok(o)) => Ok(o),
+        Ok(Err(e)) => Err(e),
+        Err(p) => Err(format!("panic: {p}")),
+    }
+}
+
 /// canonical rendering of a Comparison
 #[derive(Debug, PartialEq, Eq, Clone, Default)]
 struct Report {
@@ -361,6 +375,21 @@ fn compare_pair(ctx: &mut Ctx, a: &RefOnt, oa: &Ontology, b: &RefOnt, history: &
             if same != Report::default() {
                 ctx.violation("Ontology::compare", "comparing an ontology with itself reports differences", json!({"case": case(), "observed": format!("{same:?}")}));
             }
+            // the new ontology decoded from a file that lists everything in descending order
+            ctx.exec();
+            match build_descending(b) {
+                Ok(od) => match guard(|| (observe(oa, &od), observe(&od, &ob))) {
+                    Ok((rep, same2)) => {
+                        if let Some((site, sig, det)) = first_difference(&rep, &expected(a, b)) {
+                            ctx.violation(&site, &format!("[new ontology decoded from descending lists] {sig}"), json!({"case": case(), "difference": det}));
+                        } else if same2 != Report::default() {
+                            ctx.violation("Ontology::compare", "two decodings of the same facts (ascending / descending lists inside the file) are reported as different", json!({"case": case(), "observed": format!("{same2:?}")}));
+                        }
+                    }
+                    Err(p) => ctx.violation("Ontology::compare", "[new ontology decoded from descending lists] panics", json!({"case": case(), "observed": p})),
+                },
+                Err(e) => ctx.violation("Ontology::from_bytes", "rejects a file laid out as documented (descending lists)", json!({"facts": b.to_facts().to_json(), "observed": e})),
+            }
             // the new ontology against its own binary round trip (the library's writer and reader)
             ctx.exec();
             match guard(|| ob.as_bytes()).ok().and_then(|b| drive::from_bytes(&b).ok()).and_then(|r| r.ok()) {
@@ -458,6 +487,55 @@ pub fn run(ctx: &mut Ctx) {
                 }
             }
             ctx.sample(|| json!({"base": bname, "first_edit": format!("{e1:?}"), "second_edits": applicable_edits(&s1).len()}));
+        }
+    }
+    // ---- (last) ontologies beyond 65 536 terms: self-comparison and single edits
+    {
+        ctx.space("huge/66000-terms", "flat ontology with 66 000 terms (ids 1000..) below HP:118, a gene on the last term: compared with itself, with a copy in which the last term is renamed, and with a copy that has one term more; Builder-built");
+        if ctx.take() {
+            ctx.state();
+            ctx.nontrivial();
+            let mk = |extra: bool, rename: bool| -> Result<Ontology, String> {
+                let mut f = Facts { version: (2024, 2, 29), ..Default::default() };
+                f.terms.push(Facts::term(1, "All"));
+                f.terms.push(Facts::term(118, "Phenotypic abnormality"));
+                f.edges.push((118, 1));
+                let n = 66_000u32 + if extra { 1 } else { 0 };
+                for k in 0..n {
+                    let id = 1000 + k;
+                    let name = if rename && k == 65_999 { "renamed".to_string() } else { format!("T{id}") };
+                    f.terms.push(Facts::term(id, &name));
+                    f.edges.push((id, 118));
+                }
+                f.anns.push(Facts::ann(Kind::Gene, 11, "GENE1", Some(1000 + 65_999)));
+                drive::build(&f, crate::model::Mode::Defaults)
+            };
+            ctx.transitions(3 * 66_000);
+            match (mk(false, false), mk(false, true), mk(true, false)) {
+                (Ok(base), Ok(renamed), Ok(bigger)) => {
+                    ctx.execs(4);
+                    ctx.validateds(4);
+                    let res = guard(|| (observe(&base, &base), observe(&base, &renamed), observe(&base, &bigger), observe(&bigger, &base)));
+                    match res {
+                        Err(p) => ctx.violation("Ontology::compare", "[66 000 terms] panics", json!({"observed": p})),
+                        Ok((same, ren, add, rem)) => {
+                            if same != Report::default() {
+                                ctx.violation("Ontology::compare", "[66 000 terms] comparing an ontology with itself reports differences", json!({"added": same.added_terms.len(), "removed": same.removed_terms.len()}));
+                            }
+                            let ren_ok = ren.added_terms.is_empty() && ren.removed_terms.is_empty() && ren.added_recs.iter().all(|x| x.is_empty()) && ren.removed_recs.iter().all(|x| x.is_empty()) && ren.changed_terms.len() == 1 && ren.changed_terms.contains_key(&(1000 + 65_999));
+                            if !ren_ok {
+                                ctx.violation("Comparison::changed_hpo_terms", "[66 000 terms] set of changed terms is wrong", json!({"edit": "last term renamed", "changed": ren.changed_terms.keys().take(5).collect::<Vec<_>>(), "added": ren.added_terms.len(), "removed": ren.removed_terms.len()}));
+                            }
+                            let want: BTreeSet<u32> = [1000 + 66_000].into_iter().collect();
+                            if add.added_terms != want || !add.removed_terms.is_empty() || rem.removed_terms != want || !rem.added_terms.is_empty() {
+                                ctx.violation("Comparison::added_hpo_terms", "[66 000 terms] added / removed terms are wrong", json!({"edit": "one term more", "added": add.added_terms.iter().take(5).collect::<Vec<_>>(), "removed_when_swapped": rem.removed_terms.iter().take(5).collect::<Vec<_>>()}));
+                            }
+                        }
+                    }
+                }
+                (a, b, c) => ctx.violation("Builder", "[builder] construction fails on valid facts", json!({"terms": 66_002, "observed": format!("{:?} {:?} {:?}", a.err(), b.err(), c.err())})),
+            }
+            ctx.sample(|| json!({"terms": 66_002}));
         }
     }
 }
